@@ -13,6 +13,7 @@ import CSD.Lemmas.Prefix
 import CSD.Lemmas.IdIter
 import CSD.Lemmas.PFCMeta
 import CSD.Lemmas.RPDACPrefix4
+import CSD.Lemmas.PFCPrefixD
 
 namespace CSD.Props.C04
 open CSD
@@ -37,6 +38,21 @@ theorem id_range_iterator_empty (fuel : Nat) :
     IdIter.Contig.drain fuel (IdIter.Contig.mk' 0 0) = [] :=
   IdIter.contig_empty fuel
 
+/-- **PFC prefix search is exact** (exact model of `StringDictionaryPFC::locatePrefix`:
+`locateBoundaryBuckets` with its three binary searches on the headers, `searchPrefix` with its
+shared-prefix shortcuts over the front-coded bucket, `searchDistinctPrefix`, the single-bucket and
+multi-bucket paths and the ID arithmetic): for every valid dictionary, every bucket size and every
+NUL-free pattern the answer is `(0,0)` when no member starts with the pattern and otherwise the ID range
+`[lo, hi]` with member `i` (0-based) starting with the pattern iff `lo ≤ i + 1 ≤ hi`; every read stays
+inside the text (the result is `some`). The contiguous-ID iterator above then enumerates exactly those IDs. -/
+theorem pfc_prefix_search_exact (b : Nat) (S : List Str) (hv : validDict S = true) (q : Str) (hq : PFC.nulFree q) :
+    ∃ lo hi, PFC.locatePrefix (PFC.build b S) q = some (lo, hi) ∧
+      ((lo = 0 ∧ hi = 0 ∧ ∀ i (h : i < S.length), isPrefix q S[i] = false) ∨
+       (1 ≤ lo ∧ lo ≤ hi ∧ hi ≤ S.length ∧
+         ∀ i (h : i < S.length), (isPrefix q S[i] = true ↔ lo ≤ i + 1 ∧ i + 1 ≤ hi))) := by
+  obtain ⟨hne, hn, hs, _⟩ := PFC.validDict_facts hv
+  exact PFC.locatePrefix_build b S q hne hn hs hq
+
 /-- **RPDAC prefix search is exact** (model of `StringDictionaryRPDAC::locatePrefix`: one binary search
 for any match, one for the left boundary, one for the right boundary, each comparing through
 `extractPrefixAndCompareDAC` / `expandRuleAndComparePrefixDAC`): for every valid dictionary, every
@@ -59,7 +75,7 @@ theorem rpdac_prefix_compare_is_strncmp (g : RePair.Grammar) (hwf : g.wf = true)
     RPDAC.comparePrefixDAC g syms (RPDAC.bytesNat p) = some (scmp (s.take p.length) p) :=
   RPDAC.comparePrefixDAC_eq g hwf syms hval s p hexp hs hp hne
 
-/-- Full statement for PFC, not yet proved (the RPDAC algorithm is proved above)
+/-- The same statement in list form (kept for reference; the theorems above give it for PFC and RPDAC)
 (`prefix_search_partial`): for every valid `S`, bucket size and non-empty pattern,
 `locatePrefix (build b S) p = Spec.prefixIds S p` with all reads in bounds. -/
 def PrefixSearchStatement (locatePrefix : List Str → Str → Option (List Nat)) : Prop :=
@@ -71,6 +87,13 @@ example : Spec.prefixIds [[0x61, 0x62], [0x61, 0x62, 0x63], [0x62]] [0x61] = [1,
 theorem models_match_source_text :
     Generated.body_RPDAC_locatePrefix = SourceText.body_RPDAC_locatePrefix ∧
     Generated.body_RePair_comparePrefixDAC = SourceText.body_RePair_comparePrefixDAC ∧
-    Generated.body_RePair_comparePrefixRule = SourceText.body_RePair_comparePrefixRule := ⟨rfl, rfl, rfl⟩
+    Generated.body_RePair_comparePrefixRule = SourceText.body_RePair_comparePrefixRule ∧
+    Generated.body_PFC_locatePrefix = SourceText.body_PFC_locatePrefix ∧
+    Generated.body_PFC_locateBoundaryBuckets = SourceText.body_PFC_locateBoundaryBuckets ∧
+    Generated.body_PFC_searchPrefix = SourceText.body_PFC_searchPrefix ∧
+    Generated.body_PFC_searchDistinctPrefix = SourceText.body_PFC_searchDistinctPrefix ∧
+    Generated.body_longestCommonPrefix = SourceText.body_longestCommonPrefix ∧
+    Generated.body_PFC_getHeader = SourceText.body_PFC_getHeader ∧
+    Generated.body_PFC_decodeNextString = SourceText.body_PFC_decodeNextString := ⟨rfl, rfl, rfl, rfl, rfl, rfl, rfl, rfl, rfl, rfl⟩
 
 end CSD.Props.C04
